@@ -176,3 +176,111 @@ def validator_content(ctx, prog):
                 slices.append((canon(strip(rg[0])), None if rg[1] is None else canon(strip(rg[1]))))
     want = sorted([("param:blockhash_len", None), ("0", "param:blockhash_len")], key=str)
     ctx.ob(RV, "verify_block_hash_internal inspects exactly blockhash[..len] (content) and blockhash[len..] (tail)", sorted(slices, key=str) == want, "slices %s" % slices, f.loc())
+
+
+def validator_outcomes(ctx, prog):
+    """`verify_block_hash_internal`: the table of outcomes - each `false` with the exact set of conditions it is reached under, `true` only
+    when none applies.  (The content of the single tests is read by `validator_content`; this rule reads what each test leads to: a refusal
+    turned into an acceptance, or `&&` into `||`, changes no test but changes the table.)"""
+    from ..sym import path_conds, bool_atom
+    RVO = "SA-VALIDATE"
+    f = prog.fn("hash::algorithms::verify_block_hash_internal")
+    ctx.visit(f)
+    sy = Sym(f)
+
+    def clos(e):
+        # any(..)/all(..) over a slice with a one-comparison closure -> ('ANY'|'ALL', op, const)
+        e = strip(e)
+        if e[0] != "call" or e[1].split("::")[-1] not in ("any", "all") or len(e[2]) != 2:
+            return None
+        cl = strip(e[2][1])
+        if cl[0] != "agg" or not cl[1].startswith("Closure:"):
+            return None
+        g = prog.get(cl[1][len("Closure:"):])
+        if g is None:
+            return None
+        b = strip(Sym(g).local(0))
+        if b[0] == "bin" and b[1] in ("Ge", "Lt", "Ne", "Eq", "Gt", "Le") and const_value(strip(b[3])) is not None:
+            return (e[1].split("::")[-1].upper(), b[1], const_value(strip(b[3])))
+        return None
+    NEG = {"Lt": "Ge", "Le": "Gt", "Gt": "Le", "Ge": "Lt", "Eq": "Ne", "Ne": "Eq"}
+    sites = []
+    results = [(i, strip(sy.rvalue(s["rv"])), s["sp"]) for i, j, s in f.stmts() if s["s"] == "assign" and s["lhs"]["l"] == 0 and not s["lhs"]["p"]]
+    results += [(i, strip(sy.call(t, i)), t["sp"]) for i, t in f.calls() if t["dest"]["l"] == 0 and not t["dest"]["p"]]
+    for i, rexpr, rsp in results:
+        s = {"sp": rsp}
+        v = const_value(rexpr)
+        atoms = set()
+        odd = []
+        for c in path_conds(f, sy, i):
+            if len(c) > 3:
+                from .summary import _belief_edge
+                if _belief_edge(f, c[3][0]):
+                    continue
+            a = bool_atom(c)
+            if a is None:
+                continue
+            if a[0] == "truth":
+                x = strip(a[1])
+                if x[0] == "param":
+                    atoms.add((x[2], a[2]))
+                    continue
+                if x[0] == "discr":
+                    continue   # loop plumbing: an element was yielded
+                k = clos(x)
+                if k is not None:
+                    # `any(p)` true  ==  `all(!p)` false: written as "some element satisfies (op, const)"
+                    kind, op, cv = k
+                    if kind == "ANY":
+                        atoms.add(("SOME", op, cv) if a[2] else ("NONE", op, cv))
+                    else:
+                        atoms.add(("SOME", NEG[op], cv) if not a[2] else ("NONE", NEG[op], cv))
+                    continue
+                odd.append(canon(x)[:60])
+                continue
+            l_, r_ = strip(a[1]), strip(a[2])
+            lt, rt = canon(l_), canon(r_)
+            item = "Iterator>::next(" in lt
+            if item and const_value(r_) is not None:
+                atoms.add(("ITEM", a[0], const_value(r_)))
+            elif item and r_[0] == "local":
+                atoms.add(("ITEM", a[0], "PREV"))
+            elif l_[0] == "local" and const_value(r_) is not None:
+                atoms.add(("RUN", a[0], const_value(r_)))
+            else:
+                odd.append("%s(%s,%s)" % (a[0], lt[:40], rt[:30]))
+        if v is None:
+            # the last test written as a tail expression (`!(out && any(..))`, `!any(..)`): one outcome per truth value
+            e = rexpr
+            neg = False
+            while e[0] == "un" and e[1] == "Not":
+                e = strip(e[2])
+                neg = not neg
+            k = clos(e)
+            if k is not None:
+                kind, op, cv = k
+                some = ("SOME", op, cv) if kind == "ANY" else ("SOME", NEG[op], cv)
+                none = ("NONE", some[1], cv)
+                # value of the expression when some element satisfies the predicate
+                val_some = (kind == "ANY") != neg
+                sites.append((1 if val_some else 0, frozenset(atoms | {some}), odd, s["sp"]))
+                sites.append((0 if val_some else 1, frozenset(atoms | {none}), odd, s["sp"]))
+                continue
+        sites.append((v, frozenset(atoms), odd, s["sp"]))
+    want = [
+        (0, frozenset({("verify_normalization", True), ("verify_data_range_in", True), ("ITEM", "Ge", 64)})),
+        (0, frozenset({("verify_normalization", True), ("ITEM", "Eq", "PREV"), ("RUN", "Ge", 3)})),
+        (0, frozenset({("verify_normalization", False), ("verify_data_range_in", True), ("SOME", "Ge", 64)})),
+        (0, frozenset({("verify_data_range_out", True), ("SOME", "Ne", 0)})),
+        (1, frozenset()),
+    ]
+    # refusals are compared exactly; acceptances may be split by the form of the last test (`if c { return false } true` against `!c`), but
+    # an acceptance never rests on a condition that refuses
+    got = sorted(((v, tuple(sorted(map(str, a)))) for v, a, o, sp in sites if v == 0), key=str)
+    exp = sorted(((v, tuple(sorted(map(str, a)))) for v, a in want if v == 0), key=str)
+    bad = [o for v, a, o, sp in sites if o]
+    acc = [a for v, a, o, sp in sites if v == 1]
+    if not acc or any(x[0] in ("SOME", "ITEM", "RUN") for a in acc for x in a) or any(v not in (0, 1) for v, a, o, sp in sites):
+        bad.append(["acceptance sites %s" % [sorted(map(str, a)) for a in acc][:3]])
+    ctx.ob(RVO, "verify_block_hash_internal: the five outcomes (symbol out of range / run too long in the normalisation branch, symbol out of range in the plain branch, non-zero tail, accept) are reached under exactly their conditions",
+           got == exp and not bad, "outcomes %s%s" % ([x for x in got if x not in exp][:3] or ([x for x in exp if x not in got][:3] and "missing %s" % [x for x in exp if x not in got][:3]) or "as reviewed", ("; unread conditions %s" % bad[:3]) if bad else ""), f.loc())
